@@ -18,6 +18,9 @@ type Response struct {
 }
 
 func NewResponse(s *openapi3.Response, components Components, opts SchemaOptions) (*Response, error) {
+	if s == nil {
+		return nil, fmt.Errorf("response is empty")
+	}
 	responseContent, err := NewMap[*MediaType, *openapi3.MediaType](s.Content, func(mt *openapi3.MediaType) (*MediaType, error) {
 		return NewMediaType(mt, components.Schemas, opts)
 	})
